@@ -121,8 +121,28 @@ def match_known(known, prop, key, stext):
     return None
 
 
-def run_module(unit, path, module, seed):
+def _cache_file(path, module):
+    """Memo of a module's verification result, keyed by the full generated text (which is rebuilt from /repo's
+    working tree and the contract files on every run): the same text gives the same obligations."""
+    import hashlib
+    h = hashlib.sha256(open(path, 'rb').read()).hexdigest()[:24]
+    d = os.path.join(os.path.dirname(path), 'cache', h)
+    os.makedirs(d, exist_ok=True)
+    return os.path.join(d, module + '.json')
+
+
+def run_module(unit, path, module, seed, use_cache=True):
     t0 = time.time()
+    cfile = _cache_file(path, module)
+    if use_cache and os.environ.get('VX_NOCACHE') != '1' and os.path.exists(cfile):
+        try:
+            c = json.load(open(cfile))
+            res = c['res']
+            fails, und, hard = runverus.classify(unit, res, path)
+            return dict(res=res, fails=fails, undecided=und, hard=hard, unstable=c.get('unstable', []),
+                        wall=c.get('wall', 0.0), cached=True)
+        except Exception:
+            pass
     res = runverus.run_verus_path(path, rlimit=30, module=module)
     fails, und, hard = runverus.classify(unit, res, path)
     unstable = []
@@ -138,8 +158,13 @@ def run_module(unit, path, module, seed):
             if not u2 and not h2:
                 res, fails, und, hard = res2, f2, u2, h2
                 break
+    wall = time.time() - t0
+    try:
+        json.dump(dict(res=res, unstable=unstable, wall=wall), open(cfile, "w"))
+    except Exception:
+        pass
     return dict(res=res, fails=fails, undecided=und, hard=hard,
-                unstable=unstable, wall=time.time() - t0)
+                unstable=unstable, wall=wall, cached=False)
 
 
 def vacuity_probe(unit, modules):
